@@ -82,8 +82,35 @@ TAS = [150.0, 200.0, 235.0, 240.0, 230.0, 210.0, 160.0, 238.0]
 FF = [1.9, 1.4, 0.9, 0.05, 0.6, 0.3, 3.2, 0.0]
 
 
-def synthetic_traj(burn_g, nc, nd, start_fuel_kg=500.0):
+class PlainTrajectory:
+    """A flown trajectory as a plain object (what compute_emissions reads: fuel_mass, altitude, true_airspeed,
+    fuel_flow, n_climb, n_descent, len) - InventoryGen.tla carriers plain_float / plain_int (whole-number arrays)."""
+
+    def __init__(self, burn_g, nc, nd, start_fuel_kg, dtype):
+        n = len(burn_g)
+        fm = [start_fuel_kg]
+        for b in burn_g[1:]:
+            fm.append(fm[-1] - b / 1000.0)
+        if dtype is not float and any(v != int(v) for v in fm):
+            raise ValueError('whole-number carrier needs whole-kilogram burns')
+        self.fuel_mass = np.array(fm, dtype=dtype)
+        self.aircraft_mass = np.array([v + 60000 for v in fm], dtype=dtype)
+        self.altitude = np.array([ALT[i % len(ALT)] for i in range(n)], dtype=dtype)
+        self.true_airspeed = np.array([TAS[i % len(TAS)] for i in range(n)], dtype=dtype)
+        self.ground_speed = self.true_airspeed
+        self.fuel_flow = np.array([FF[i % len(FF)] for i in range(n)])
+        self.flight_time = np.arange(n, dtype=dtype) * 600
+        self.ground_distance = np.arange(n, dtype=dtype) * 100000
+        self.n_climb, self.n_descent, self.n_cruise = nc, nd, n - nc - nd
+
+    def __len__(self):
+        return len(self.fuel_mass)
+
+
+def synthetic_traj(burn_g, nc, nd, start_fuel_kg=500.0, carrier='container'):
     """Trajectory whose fuel_mass profile realises the integer burns (grams)."""
+    if carrier != 'container':
+        return PlainTrajectory(burn_g, nc, nd, start_fuel_kg, float if carrier == 'plain_float' else np.int64)
     from AEIC.trajectories.trajectory import Trajectory
 
     n = len(burn_g)
